@@ -56,6 +56,15 @@ func OutDir() string {
 // Shard is this process's shard number ($VERIF_SHARD).
 func Shard() int { n, _ := strconv.Atoi(os.Getenv("VERIF_SHARD")); return n }
 
+// ShardIndex is this process's index within its group of shards
+// ($VERIF_SHARD_INDEX, else $VERIF_SHARD): use it to partition enumerations.
+func ShardIndex() int {
+	if v, err := strconv.Atoi(os.Getenv("VERIF_SHARD_INDEX")); err == nil {
+		return v
+	}
+	return Shard()
+}
+
 // Shards is the number of shards ($VERIF_SHARDS, default 1).
 func Shards() int {
 	n, _ := strconv.Atoi(os.Getenv("VERIF_SHARDS"))
